@@ -251,6 +251,10 @@ def generate(X):
     end = X.balanced(s2, mm.end() - 1)
     flat = re.sub(r"\s+", " ", re.sub(r"//[^\n]*", "", s2[mm.end():end - 1])).strip()
     shape = (r"if f\.repr\(\)\.is_infinite\(\) \{ return None; \} else if f\.repr\(\)\.is_zero\(\) \{ return Some\(Self::ZERO\); \} "
+             # round 6 (proposed_fixes/c18-simplest-from-float-unlimited.diff): exact value of an unlimited-precision float,
+             # returned BEFORE the error bounds are asked; without it the skeleton below has no such path and
+             # Props/C18Gen.entry_is_skeleton stops checking
+             r"(?P<exact>if f\.precision\(\) == 0 \{ return Some\(Self::try_from\(f\.clone\(\)\)\.unwrap\(\)\); \} )?"
              r"let \(l, r, incl_l, incl_r\) = R::error_bounds\(f\); "
              r"let lb = f - l\.with_precision\(f\.precision\(\) \+ 1\)\.unwrap\(\); "
              r"let rb = f \+ r\.with_precision\(f\.precision\(\) \+ 1\)\.unwrap\(\); "
@@ -258,13 +262,16 @@ def generate(X):
              r"let mut simplest = Self::simplest_in\(left\.clone\(\), right\.clone\(\)\); "
              r"if incl_l && left\.is_simpler_than\(&simplest\) \{ simplest = left; \} "
              r"if incl_r && right\.is_simpler_than\(&simplest\) \{ simplest = right; \} Some\(simplest\)")
-    if not re.fullmatch(shape, flat):
+    fm = re.fullmatch(shape, flat)
+    if not fm:
         raise X.ExtractError("%s: body of `simplest_from_float` no longer has the mirrored shape "
                              "(infinite -> None, zero -> ZERO, [f-L, f+R], simplest_in, inclusive end points left then right)" % REL2)
     line2 = s2.count("\n", 0, mm.start()) + 1
     out.append("/-- `RBig::simplest_from_float` (%s:%d), decision skeleton: which early return is taken\n"
-               "    (0 = `None`, 1 = `Some(ZERO)`, 2 = the interval path `[f − L, f + R]` → `simplest_in` → end points) -/" % (REL2, line2))
-    out.append("def simplest_from_float_path (isInfinite isZero : Bool) : Nat :=\n    if isInfinite then 0 else if isZero then 1 else 2\n")
+               "    (0 = `None`, 1 = `Some(ZERO)`, 3 = `f.precision() == 0`: the exact value `Self::try_from(f.clone())`,\n"
+               "    2 = the interval path `[f − L, f + R]` → `simplest_in` → end points) -/" % (REL2, line2))
+    out.append("def simplest_from_float_path (isInfinite isZero prec0 : Bool) : Nat :=\n    if isInfinite then 0 else if isZero then 1 else %s2\n"
+               % ("if prec0 then 3 else " if fm.group("exact") else ""))
     out.append("/-- the end-point selection of the interval path: left first, then right (`simpler a b` = `a.is_simpler_than(&b)`) -/")
     out.append("def simplest_from_float_pick {α : Type} (simpler : α → α → Bool) (left right simplest : α) (incl_l incl_r : Bool) : α :=\n"
                "    let simplest := if incl_l && simpler left simplest then left else simplest\n"
